@@ -156,7 +156,8 @@ pub fn alpha_beta_search(
         scored_moves
     );
 
-    let (score, result) = scored_moves.pop().unwrap();
+    // No candidates: the side to move is checkmated or stalemated.
+    let (score, result) = scored_moves.pop().ok_or(SearchError::NoAvailableMoves)?;
     context.last_score = Some(score);
     debug!(
         "Alpha-beta search returning best move: {:?} (score: {})",
